@@ -75,6 +75,9 @@ class C29(PropBase):
         scn = {"tree": proj["tree"], "units": proj["units"], "langs": proj["langs"], "opts": opts, "envs": envs,
                "modes": ["text", "xml", "dump", "thread", "process"] if rng.chance(0.5) else rng.sample(["text", "xml", "dump", "thread", "process"], 3),
                "jobs": rng.randint(2, 4)}
+        for e in envs:
+            # a fast and a slow machine: simulated microseconds per clock reading (time-based bail-outs would show up here)
+            e["clock_step"] = rng.choice([137, 137, 20000, 2000000])
         if rng.chance(0.35):
             # paths that only a careful total order keeps apart: names differing in letter case only (file or directory), names that
             # are prefixes of each other, names with characters that sort around '/' and '.'
@@ -107,9 +110,17 @@ class C29(PropBase):
         import fcntl, hashlib, json
         h = hashlib.sha256(json.dumps(scn, sort_keys=True).encode()).hexdigest()[:16]
         base = os.path.join(os.environ.get("TMPDIR", "/tmp"), "verif-c29")
-        os.makedirs(base, exist_ok=True)
         fwd = os.path.join(base, h)
-        with open(fwd + ".lock", "w") as lock:
+        lock = None
+        for _attempt in range(50):     # another batch may remove the (empty) base directory at any moment
+            try:
+                os.makedirs(base, exist_ok=True)
+                lock = open(fwd + ".lock", "w")
+                break
+            except OSError:
+                import time
+                time.sleep(0.01)
+        with lock:
             fcntl.flock(lock, fcntl.LOCK_EX)
             core.rmtree(fwd)
             os.makedirs(fwd)
@@ -136,7 +147,7 @@ class C29(PropBase):
                 tree_dir = os.path.join(wd, "%s%d" % (mode, ei), "tree")
                 os.makedirs(tree_dir)
                 core.write_tree(tree_dir, gen.join_tree(scn["tree"]))
-                run = {"seed": env["seed"], "alloc": env["alloc"], "readdir_shuffle": env["readdir_shuffle"], "dt_unknown": env["dt_unknown"], "clock": env["clock"]}
+                run = {"seed": env["seed"], "alloc": env["alloc"], "readdir_shuffle": env["readdir_shuffle"], "dt_unknown": env["dt_unknown"], "clock": env["clock"], "clock_step": env.get("clock_step", 137)}
                 if mode == "text":
                     args = ["-q", TEMPLATE] + oargs + ["-j1", "."]
                 elif mode == "xml":
